@@ -1281,7 +1281,7 @@ namespace bluetoe {
                 , end_( end )
                 , index_( details::handle_index_mapping< Server >::first_index_by_handle( starting_index ) )
                 , starting_index_( details::handle_index_mapping< Server >::first_index_by_handle( starting_handle ) )
-                , ending_index_( ending_handle )
+                , ending_handle_( ending_handle )
                 , stoped_( false )
                 , first_( true )
                 , is_128bit_uuid_( true )
@@ -1296,7 +1296,7 @@ namespace bluetoe {
                 // secondary services are not to be found by a primary service discovery
                 if ( !stoped_
                     && ( starting_index_ != details::invalid_attribute_index && starting_index_ <= index_ )
-                    && ( index_ <= ending_index_ || ending_index_ == details::invalid_attribute_index )
+                    && details::handle_index_mapping< Server >::handle_by_index( index_ ) <= ending_handle_
                     && Server::attribute_at( index_ ).uuid == bits( details::gatt_uuids::primary_service ) )
                 {
                     if ( first_ )
@@ -1323,7 +1323,7 @@ namespace bluetoe {
                   std::uint8_t*   end_;
                   std::size_t     index_;
             const std::size_t     starting_index_;
-            const std::size_t     ending_index_;
+            const std::uint16_t   ending_handle_;
                   bool            stoped_;
                   bool            first_;
                   bool            is_128bit_uuid_;
@@ -1573,24 +1573,19 @@ namespace bluetoe {
         {
             services_by_group( std::uint16_t starting_handle, std::uint16_t ending_handle, Iterator& iterator, const Filter& filter, bool& found )
                 : starting_index_( details::handle_index_mapping< Server >::first_index_by_handle( starting_handle ) )
-                , ending_index_( details::handle_index_mapping< Server >::first_index_by_handle( ending_handle ) )
+                , ending_handle_( ending_handle )
                 , index_( 0 )
                 , iterator_( iterator )
                 , filter_( filter )
                 , found_( found )
             {
-                // if the ending_handle does not point to a specific handle, the last attribute befor that is ment.
-                if ( ending_index_ != details::invalid_attribute_index && details::handle_index_mapping< Server >::handle_by_index( ending_index_ ) != ending_handle )
-                {
-                    --ending_index_;
-                }
             }
 
             template< typename Service >
             void each()
             {
                 if ( ( starting_index_ != details::invalid_attribute_index && starting_index_ <= index_ )
-                    && ( index_ <= ending_index_ || ending_index_ == details::invalid_attribute_index ) )
+                    && details::handle_index_mapping< Server >::handle_by_index( index_ ) <= ending_handle_ )
                 {
                     const details::attribute& attr = Server::attribute_at( index_ );
 
@@ -1609,7 +1604,7 @@ namespace bluetoe {
             }
 
             std::size_t     starting_index_;
-            std::size_t     ending_index_;
+            std::uint16_t   ending_handle_;
             std::size_t     index_;
             Iterator&       iterator_;
             const Filter&   filter_;
